@@ -231,6 +231,9 @@ type world struct {
 	cur    crypto.SymKey // current read key (harness knows every key: it creates them)
 	lines  []string      // line-protocol history (root + every record offered)
 	ts     int64
+	// noncanon, when set, decides per accountKeys entry whether the identity is written in an
+	// equivalent but byte-different protobuf encoding (returns 0 = canonical, 1.. = variant)
+	noncanon func() int
 }
 
 func (w *world) recId(i int) string {
@@ -348,12 +351,45 @@ func (w *world) rkcProto(k *rkc, cur crypto.SymKey) (*aclrecordproto.AclReadKeyC
 		res.EncryptedOldReadKey, _ = nk.Encrypt(cp)
 	}
 	for _, a := range k.Accs {
-		res.AccountKeys = append(res.AccountKeys, &aclrecordproto.AclEncryptedReadKey{Identity: w.c.pub(a), EncryptedReadKey: w.encAcc(a, nk)})
+		id := w.c.pub(a)
+		if w.noncanon != nil && a >= 0 && a < len(w.c.accRaw) {
+			id = nonCanonicalKey(w.c.accRaw[a], w.noncanon(), id)
+		}
+		res.AccountKeys = append(res.AccountKeys, &aclrecordproto.AclEncryptedReadKey{Identity: id, EncryptedReadKey: w.encAcc(a, nk)})
 	}
 	for _, i := range k.Invs {
 		res.InviteKeys = append(res.InviteKeys, &aclrecordproto.AclEncryptedReadKey{Identity: w.c.ipub(i), EncryptedReadKey: w.encInv(i, nk)})
 	}
 	return res, nk
+}
+
+// nonCanonicalKey renders cryptoproto.Key{Type: Ed25519Public (= 0), Data: raw} in a byte-different
+// but equivalent wire encoding (every protobuf decoder, incl. PubKeyFromProto, reads the same key):
+//
+//	1: the default-valued Type field written explicitly (08 00) before Data
+//	2: Data first, then the explicit default Type
+//	3: the length of Data as a non-minimal varint (a0 00 instead of 20)
+//	4: explicit Type with a non-minimal varint value (08 80 00)
+//	5: Data written twice (last one wins), first copy garbage
+func nonCanonicalKey(raw []byte, variant int, canonical []byte) []byte {
+	data := func(lenBytes ...byte) []byte { return append(append([]byte{0x12}, lenBytes...), raw...) }
+	if len(raw) != 32 {
+		return canonical
+	}
+	switch variant {
+	case 1:
+		return append([]byte{0x08, 0x00}, data(0x20)...)
+	case 2:
+		return append(data(0x20), 0x08, 0x00)
+	case 3:
+		return data(0xa0, 0x00)
+	case 4:
+		return append([]byte{0x08, 0x80, 0x00}, data(0x20)...)
+	case 5:
+		junk := append([]byte{0x12, 0x20}, make([]byte, 32)...)
+		return append(junk, data(0x20)...)
+	}
+	return canonical
 }
 
 func up(p int) aclrecordproto.AclUserPermissions { return aclrecordproto.AclUserPermissions(p) }
